@@ -13,7 +13,9 @@ From Coq Require Import List Arith Bool Lia.
 Import ListNotations.
 Require Import MayV.Base.CancelOverlay MayV.Sync.ChanMpmcModel MayV.Sync.ChanMpmcInv MayV.Sync.ChanMpmcThm.
 
-Definition mp_hits (ac : action) : hit := match ac with Fire r => MayHit r | _ => NoHit end.
+(* since the channel work package generalised the give-up action to [Fire r cancel], the delivery of a cancellation is
+   [Fire r true] (any blocked waiter, timed or not, granted or not: a granted one posts the permit back) *)
+Definition mp_hits (ac : action) : hit := match ac with Fire r true => MayHit r | _ => NoHit end.
 Definition all_co (_ : nat) : bool := true.
 
 Section C.
@@ -32,41 +34,41 @@ Theorem reach_moreach s : Reach true true c s -> exists b l, MOReach {| base := 
 Proof. intro R. apply greach_lift; [reflexivity | apply greach_reach; exact R]. Qed.
 
 (* ---- (iii) ---- *)
-Theorem fire_as_cancel_needs_bit os r os' : MOReach os -> mostep os (OAct (Fire r) true) = Some os' ->
-  cbit os r = true /\ In r (clog os) /\
-  rp (Rv (base os) r) = WB /\ rtimed (Rv (base os) r) = true /\ rgr (Rv (base os) r) = false.
+Theorem fire_as_cancel_needs_bit os r os' : MOReach os -> mostep os (OAct (Fire r true) true) = Some os' ->
+  cbit os r = true /\ In r (clog os) /\ rp (Rv (base os) r) = WB.
 Proof.
   intros R H. destruct (delivery_needs_bit _ _ _ _ _ _ _ _ r H eq_refl) as [B E].
   split; [exact B|]. split; [apply (bit_iff_cancel_called _ _ _ _ _ _ os R); exact B|].
-  unfold step in E. destruct (rp (Rv (base os) r)); try discriminate.
-  destruct (rtimed (Rv (base os) r)); [|discriminate]. destruct (rgr (Rv (base os) r)); [discriminate | auto].
+  unfold step in E. destruct (rp (Rv (base os) r)); try discriminate. reflexivity.
 Qed.
 
 (* ---- (i) ---- *)
 Definition OQuiescent (os : most) : Prop :=
   (forall r, stepc (base os) (RStep r) = None) /\ (forall a, stepc (base os) (SStep a) = None) /\
-  (forall r, mostep os (OAct (Fire r) true) = None).
+  (forall r, mostep os (OAct (Fire r true) true) = None).
 
-Theorem cancelled_receiver_not_blocked os r : OQuiescent os -> cbit os r = true -> rtimed (Rv (base os) r) = true ->
+Theorem cancelled_receiver_not_blocked os r : OQuiescent os -> cbit os r = true ->
   rp (Rv (base os) r) <> WB.
 Proof.
-  intros (Qr & _ & Qf) B T E. specialize (Qf r). specialize (Qr r).
+  intros (Qr & _ & Qf) B E. specialize (Qf r).
   unfold mostep, CancelOverlay.ostep, allowed in Qf. cbn in Qf. rewrite B in Qf.
-  unfold step in Qf, Qr. rewrite E in Qf, Qr. rewrite T in Qf.
+  unfold step in Qf. rewrite E in Qf. cbn in Qf.
   destruct (rgr (Rv (base os) r)); cbn in Qf; discriminate.
 Qed.
 
 (* ---- (ii) ---- *)
 (* the receiver that gives up leaves the waiter queue; the value queue, the semaphore value, the permits in other hands
    and the logs are untouched *)
-Theorem giving_up_takes_nothing s r s' : stepc s (Fire r) = Some s' ->
+Theorem giving_up_takes_nothing s r c0 s' : stepc s (Fire r c0) = Some s' -> rgr (Rv s r) = false ->
   q s' = q s /\ sv s' = sv s /\ wq s' = rm r (wq s) /\ hold s' = hold s /\ rlog s' = rlog s /\ sent s' = sent s /\
   txp s' = txp s /\ rxp s' = rxp s /\ rp (Rv s' r) = YIdle.
 Proof.
-  intro H. unfold step in H. destruct (rp (Rv s r)); try discriminate.
-  destruct (rtimed (Rv s r) && negb (rgr (Rv s r))); [|discriminate]. injection H as <-. cbn.
+  intros H G. unfold step in H. destruct (rp (Rv s r)); try discriminate.
+  destruct (c0 || rtimed (Rv s r)); [|discriminate]. rewrite G in H. injection H as <-. cbn.
   unfold upd. rewrite Nat.eqb_refl. cbn. auto 12.
 Qed.
+(* a waiter that had already been handed the permit posts it back before it leaves: ChanMpmcThm / Properties/C06:
+   C06_mpmc_giveup_passes_the_permit_on *)
 
 Theorem channel_intact_after_cancel os : MOReach os ->
   let s := base os in
@@ -82,11 +84,11 @@ End C.
 (* ---- non-vacuity: a send races with the cancel of a blocked receiver; the permit stays in the semaphore ---- *)
 Definition osch : list (oact action) :=
   map (fun a => OAct a false) [Recv 0 true; RStep 0; RStep 0; RStep 0; Send 0; SStep 0; SStep 0] ++
-  [OCancel 0; OAct (Fire 0) true] ++
+  [OCancel 0; OAct (Fire 0 true) true] ++
   map (fun a => OAct a false) [SStep 0].
 Example cancelled_receiver_with_pending_message :
   exists os, orun st action (step true true true) mp_hits all_co (oinit st init) osch = Some os /\ MOReach true os /\
-    rp (Rv (base os) 0) = YIdle /\ rres (Rv (base os) 0) = RTimeout /\ q (base os) = [(0, 0)] /\ sv (base os) = 1 /\ wq (base os) = [] /\
+    rp (Rv (base os) 0) = YIdle /\ rres (Rv (base os) 0) = RCancel /\ q (base os) = [(0, 0)] /\ sv (base os) = 1 /\ wq (base os) = [] /\
     exists os', orun st action (step true true true) mp_hits all_co os
                   (map (fun a => OAct a false) [TryRecv 0; RStep 0; RStep 0; RStep 0]) = Some os' /\
                 rres (Rv (base os') 0) = ROk (0, 0) /\ q (base os') = [] /\ sv (base os') = 0.
